@@ -17,6 +17,25 @@ var TrustedTotal = map[string]string{
 	"(*sync.Pool).Get":             "returns a pooled object or the result of New (a module function literal, analysed on its own)",
 	"(*sync.Pool).Put":             "stores its argument, no preconditions",
 	"(*sync.Once).Do":              "runs its argument at most once; the argument is a module function literal, analysed as a reachable function of its own",
+	"math/bits.OnesCount8":         "pure arithmetic",
+	"math/bits.OnesCount16":        "pure arithmetic",
+	"math/bits.OnesCount32":        "pure arithmetic",
+	"math/bits.OnesCount64":        "pure arithmetic",
+	"math/bits.OnesCount":          "pure arithmetic",
+	"math/bits.LeadingZeros8":      "pure arithmetic",
+	"math/bits.LeadingZeros16":     "pure arithmetic",
+	"math/bits.LeadingZeros32":     "pure arithmetic",
+	"math/bits.LeadingZeros64":     "pure arithmetic",
+	"math/bits.TrailingZeros8":     "pure arithmetic",
+	"math/bits.TrailingZeros16":    "pure arithmetic",
+	"math/bits.TrailingZeros32":    "pure arithmetic",
+	"math/bits.TrailingZeros64":    "pure arithmetic",
+	"math/bits.Len8":               "pure arithmetic",
+	"math/bits.Len16":              "pure arithmetic",
+	"math/bits.Len32":              "pure arithmetic",
+	"math/bits.Len64":              "pure arithmetic",
+	"math/bits.Reverse8":           "pure arithmetic",
+	"math/bits.ReverseBytes32":     "pure arithmetic",
 	"bytes.TrimPrefix":             "returns a sub-slice of its argument",
 	"bytes.TrimSuffix":             "returns a sub-slice of its argument",
 	"bytes.HasPrefix":              "compares, reads only",
